@@ -30,6 +30,13 @@ CLAIMS['C03'] = ('Bounded symbolic model checking of the real RayGenerator / Opt
     'origin, field angle, collinearity with the pupil point, unit direction towards the lens, intensity/OPD/wavelength are SMT queries decided unsat; every illegal '
     'combination must raise ValueError on all paths; distributions: count, unit disk, shrink-only vignetting for symbolic factors.',
     'floats as exact reals; thickness >= 0; aperture value yields a positive EPD; fields along y; distribution sizes <= 8 (12 thorough); random generator stubbed')
+CLAIMS['C14'] = ('Bounded symbolic model checking of the real OptimizationProblem / OptimizerGeneric / LeastSquares / DualAnnealing / DifferentialEvolution / Variable / Operand code '
+    'against a nondeterministic stub of scipy.optimize (documented contract: evaluates the objective at x0 and at <=2 arbitrary points inside the bounds it was given, returns the best; '
+    'workers=-1 evaluates on copies): post-state = result.x, merit = result.fun, not worse than start, inside bounds, pickups/solves satisfied, undo restores; merit formula; every variable type is a faithful handle with bounds in value units. All SMT queries over symbolic lens numbers, evaluation points, targets, weights; operands are uninterpreted functions.',
+    'scipy optimisers are stubbed by their contract (that they meet it is not checked); operands uninterpreted; <=3 evaluations, <=2 variables, sequences <=4; floats as reals')
+CLAIMS['C16'] = ('Bounded symbolic model checking of RadialAperture.clip, RealRays.propagate (Beer-Lambert), SimpleCoating, Surface._trace_real and a 2-surface Optic: '
+    'step contract from an arbitrary ray/intensity: zero outside the aperture in the surface frame, exp argument -4 pi k d 1e3/lambda, coating factor, nothing else; 0<=i\'<=i; records = ray intensity; RayFan intensities = traced ones (UF tracer).',
+    'exp axiomatised (positivity, monotonicity, congruence); geometry of the step uninterpreted; planes in the wiring run; floats as reals')
 NOT_YET = 'check not built yet in this round (work in progress; see DESIGN.md section 6 for the plan)'
 
 props = [json.loads(l) for l in open(os.path.join(ROOT, 'properties.jsonl'))]
